@@ -111,6 +111,42 @@ def sprinkle(rng, vals, mode, null=None):
     return out
 
 
+LONG_LATTICE = [63, 64, 65, 255, 256, 257, 511, 512, 513, 4095, 4096, 4097, 65535, 65536, 65537]
+LONG_KINDS = ("lstr", "lostr", "lbytes")
+
+
+def long_pool(rng, kind, maxlen):
+    """values around the length lattice that share a long common prefix and differ at the very end (so that a
+    statistic cut to a prefix is no stored value, and a cut max is below the stored max), a strict prefix of them,
+    and sometimes short values; sorted by the stored bytes"""
+    lens = [x for x in LONG_LATTICE if x <= maxlen]
+    pick = sorted(set(rng.sample(lens, min(len(lens), rng.choice([1, 2, 3]))) + ([rng.choice(lens[-3:])] if rng.random() < 0.5 else [])))
+    if kind == "lbytes":
+        unit = rng.choice(["ab", "\xff", "\x00", "\xfe\xff", "path/"])
+        tails = ["", "\x00", "0", "\xff"]
+    else:
+        unit = rng.choice(["ab", "https://example.org/a/", "x", "a\u00e9", "\u4e2db", "\U0001F600"])
+        if max(pick) > 4097:
+            # the footer is serialised into a fixed 500 kB buffer (C10's open finding): 2 row groups x (min, max) of the
+            # longest values must stay below it, so those are one byte per character
+            unit = rng.choice(["ab", "https://example.org/a/", "x"])
+        tails = ["", "0", "z", "\u00e9"]
+    items = []
+    for L in pick:
+        for t in rng.sample(tails, rng.choice([2, 3, 4])):
+            items.append([unit, L, t])
+    if rng.random() < 0.5:
+        items += [[unit, 0, ""], [unit, 1, ""], ["~", 1, ""], [unit, 3, "a"]]
+    enc = lambda it: S.expand_long(it, kind == "lbytes") if kind == "lbytes" else S.expand_long(it).encode("utf-8")
+    seen, out = set(), []
+    for it in sorted(items, key=enc):
+        e = enc(it)
+        if e not in seen:
+            seen.add(e)
+            out.append(it)
+    return out
+
+
 KINDS = ["int8", "int16", "int32", "int64", "uint8", "uint16", "uint32", "uint64", "bool", "float32", "float64", "float16",
          "Int8", "Int16", "Int32", "Int64", "UInt8", "UInt16", "UInt32", "UInt64", "boolean", "Float32", "Float64",
          "dt_ns", "dt_us", "dt_ms", "dt_s", "dt_tz", "dt_96", "td_ns", "td_us", "td_ms", "td_s",
@@ -118,9 +154,16 @@ KINDS = ["int8", "int16", "int32", "int64", "uint8", "uint16", "uint32", "uint64
          "cat_str", "cat_int", "cat_float", "cat_dt", "cat_str", "cat_int"]
 
 
-def gen_col(rng, name, kind, n, pattern, nullmode):
+def gen_col(rng, name, kind, n, pattern, nullmode, maxlen=513):
     """-> column spec (JSON-able).  spec['nulls'] says whether the column needs an OPTIONAL schema element."""
     spec = {"name": name, "kind": kind, "pattern": pattern, "nullmode": nullmode}
+    if kind in LONG_KINDS:
+        pool = long_pool(rng, kind, maxlen)
+        v = sprinkle(rng, [pool[r] for r in ranks(rng, n, len(pool), pattern)], nullmode)
+        spec.update(k=kind, v=v, nulls=nullmode != "none", pdk="O", maxlen=max(it[1] for it in pool))
+        if kind != "lstr":
+            spec["unorderable"] = nullmode != "none"       # pandas raises TypeError on max() of str/bytes objects with None
+        return spec
     if kind in INT_RANGE:
         pool = int_pool(rng, *INT_RANGE[kind])
         spec.update(k="np", dtype=kind, v=[pool[r] for r in ranks(rng, n, len(pool), pattern)], nulls=False, pdk=kind[0])
@@ -214,24 +257,41 @@ def gen_case(rng, quick):
     names = rng.sample(NAMES, ncols)
     file_pattern = rng.choice(["mixed", "mixed", "sorted"])
     cols = []
-    for nm in names:
-        kind = rng.choice(KINDS)
+    # generator dimension `long values`: in a quarter of the files one or two columns hold long text / binary values on the
+    # length lattice LONG_LATTICE (the longest ones only in small files: the footer repeats min and max per row group)
+    nlong = rng.choice([0, 0, 0, 0, 0, 0, 1, 1, 2])
+    maxlen = 65537 if n <= 17 else (4097 if n <= 130 else 513)
+    for i, nm in enumerate(names):
+        kind = rng.choice(KINDS) if i >= nlong else rng.choice(LONG_KINDS)
         pattern = rng.choice(["random", "random", "sorted", "strict", "late", "const"]) if file_pattern == "mixed" else rng.choice(["sorted", "strict"])
         nullmode = rng.choice(["none", "none", "few", "few", "many", "all"])
-        cols.append(gen_col(rng, nm, kind, n, pattern, nullmode))
+        if kind in LONG_KINDS and nullmode != "none" and kind != "lstr" and rng.random() < 0.7:
+            nullmode = "none"          # object text with None gets no min/max from pandas: keep most long columns orderable
+        cols.append(gen_col(rng, nm, kind, n, pattern, nullmode, maxlen=maxlen if i == 0 else min(maxlen, 4097)))
+    longest = max([c.get("maxlen", 0) for c in cols])
     # row groups
     nrg = rng.choice([1, 1, 2, 3, 5]) if n > 1 else 1
+    if longest > 4097:
+        nrg = min(nrg, 2)
     rgo = sorted({0} | {rng.randrange(1, n) for _ in range(nrg - 1)}) if n > 1 else [0]
     opts = {"rgo": rgo, "v2": rng.random() < 0.5}
     stringy = any(c["k"] in ("str", "ostr", "obytes", "odec") for c in cols)
-    opts["page"] = rng.choice([None, 40, 100, 400, 2000] if stringy else [None, 16, 40, 100, 400, 2000])
+    if longest:
+        mb = 4 * longest + 8           # a page must hold at least one row (the writer refuses smaller pages)
+        opts["page"] = rng.choice([None, None] + [p for p in (2000, 20000, 70000, 300000, 2000000) if p >= 2 * mb][:2])
+    else:
+        opts["page"] = rng.choice([None, 40, 100, 400, 2000] if stringy else [None, 16, 40, 100, 400, 2000])
     if opts["page"] is None:
         del opts["page"]
     st = rng.choice(["true", "true", "true", "false", "auto", "list", "list"])
+    if longest and st in ("false", "auto") and rng.random() < 0.8:
+        st = "true"                    # 'auto' leaves text columns without min/max
     opts["stats"] = {"true": True, "false": False, "auto": "auto"}.get(st) if st != "list" else rng.sample(names, rng.randint(0, ncols))
+    if longest and st == "list" and rng.random() < 0.8:
+        opts["stats"] = sorted(set(opts["stats"]) | {c["name"] for c in cols if c["k"] in LONG_KINDS})
     need = [c["name"] for c in cols if c["nulls"]]
     hn = rng.choice(["true", "true", "infer", "list"])
-    if hn == "infer" and any(c["nulls"] and c["k"] in ("ext", "dt", "td", "str", "cat") for c in cols):
+    if hn == "infer" and any(c["nulls"] and c["k"] in ("ext", "dt", "td", "str", "lstr", "cat") for c in cols):
         hn = "list"
     opts["has_nulls"] = True if hn == "true" else ("infer" if hn == "infer" else sorted(set(need) | set(rng.sample(names, rng.randint(0, ncols)))))
     comp = rng.choice([None, None, None, "SNAPPY", "GZIP", "ZSTD", "LZ4"])
@@ -239,9 +299,9 @@ def gen_case(rng, quick):
         opts["compression"] = comp
     oe, ft = {}, {}
     for c in cols:
-        if c["k"] == "ostr":
+        if c["k"] in ("ostr", "lostr"):
             oe[c["name"]] = "utf8"
-        elif c["k"] == "obytes":
+        elif c["k"] in ("obytes", "lbytes"):
             oe[c["name"]] = "bytes"
         elif c["k"] in ("oint", "obool", "ofloat", "odec"):
             oe[c["name"]] = {"oint": "int", "obool": "bool", "ofloat": "float", "odec": "decimal"}[c["k"]]
@@ -285,6 +345,8 @@ def examine(case, path, pq=None, ctx=None):
     # with a filter that prunes some row groups (chosen on a separate handle), in both orders, and both again afterwards; every
     # result is compared with the values recomputed from the stored chunks, the unfiltered results before/after with each other
     pf = ParquetFile(path)
+    nrg0 = len(pf.row_groups)
+    early = pf[1:] if nrg0 > 1 else pf[0:1]          # derived BEFORE any cache of the parent is filled, read at the end
     filt, fidx = _pick_filter(path)
     order = (case["n"] + len(case["cols"])) % 2
     stat_views, sorted_views = [], []
@@ -306,6 +368,50 @@ def examine(case, path, pq=None, ctx=None):
         call_sorted("sorted_partitioned_columns() after sorted_partitioned_columns(filters)")
     if ctx is not None:
         ctx.count("call sequence", ("filtered call first" if order == 1 else "unfiltered call first") if filt else "no pruning filter available")
+    # generator dimension `derived handles`: the same views through handles DERIVED from pf after its caches were filled
+    # (slices, picks, reversed, slice of a slice, pickled, copied), each compared with the stored chunks of exactly the
+    # row groups that handle selects; and a parent whose child was asked first
+    import pickle
+    derived = []
+    allr = list(range(nrg0))
+    dplan = [("pf[1:]", lambda h: h[1:], allr[1:]), ("pf[:-1]", lambda h: h[:-1], allr[:-1]), ("pf[::2]", lambda h: h[::2], allr[::2]),
+             ("pf[::-1]", lambda h: h[::-1], allr[::-1]), ("pf[%d]" % (nrg0 // 2), lambda h: h[nrg0 // 2], [allr[nrg0 // 2]]),
+             ("pf[1:][1:]", lambda h: h[1:][1:], allr[1:][1:]), ("pickle.loads(pickle.dumps(pf))", lambda h: pickle.loads(pickle.dumps(h)), allr),
+             ("copy.copy(pf)", copy.copy, allr), ("copy.deepcopy(pf)", copy.deepcopy, allr),
+             ("pickle.loads(pickle.dumps(pf[1:]))", lambda h: pickle.loads(pickle.dumps(h[1:])), allr[1:])]
+    pick_ = [dplan[(case["n"] + k) % len(dplan)] for k in (0, 3, 7)] if nrg0 > 1 else [dplan[4], dplan[6 + case["n"] % 3]]
+    dviews = []
+    for lbl, mk, sel in pick_:
+        if not sel:
+            continue
+        lbl = lbl + " (derived after pf.statistics / sorted_partitioned_columns(pf) were evaluated)"
+        try:
+            h = mk(pf)
+            dviews.append((lbl + ".statistics", copy.deepcopy(h.statistics), sel))
+            try:
+                r, err = api.sorted_partitioned_columns(h), None
+            except Exception as e:       # noqa
+                r, err = {}, "%s: %s" % (type(e).__name__, e)
+            sorted_views.append({"label": "sorted_partitioned_columns(%s)" % lbl, "res": copy.deepcopy(r), "err": err, "idx": sel, "filter": None, "derived": True})
+            dviews.append((lbl + ".statistics again", copy.deepcopy(h.statistics), sel))
+        except Exception as e:       # noqa
+            derived.append(({"kind": "any", "categorical": False, "v2": bool(case["opts"].get("v2")), "multipage": False, "ptype": "any",
+                             "component": "statistics", "what": "derived-handle-raises"},
+                            {"col": None, "rg": None, "detail": "%s raises %s: %s" % (lbl, type(e).__name__, e)}))
+    try:
+        esel = allr[1:] if nrg0 > 1 else allr
+        dviews.append(("pf[1:] taken before pf.statistics was evaluated, read after: .statistics", copy.deepcopy(early.statistics), esel))
+        p2 = ParquetFile(path)
+        child = p2[1:] if nrg0 > 1 else p2[0:1]
+        dviews.append(("child = p2[1:] of a fresh handle p2: child.statistics", copy.deepcopy(child.statistics), esel))
+        dviews.append(("p2.statistics after child.statistics", copy.deepcopy(p2.statistics), allr))
+    except Exception as e:       # noqa
+        derived.append(({"kind": "any", "categorical": False, "v2": bool(case["opts"].get("v2")), "multipage": False, "ptype": "any",
+                         "component": "statistics", "what": "derived-handle-raises"},
+                        {"col": None, "rg": None, "detail": "statistics of a sliced handle raises %s: %s" % (type(e).__name__, e)}))
+    if ctx is not None:
+        for lbl, _, _ in pick_:
+            ctx.count("derived handles", lbl)
     ust = stat_views[0][1]
     sorted_err = next((v["err"] for v in sorted_views if v["err"]), None)
     specs = {c["name"]: c for c in case["cols"]}
@@ -388,7 +494,7 @@ def examine(case, path, pq=None, ctx=None):
                         fails.append(({**cls0, "component": "statistics", "what": "user-null_count"},
                                       {**info, "detail": "%s: null_count = %r, stored chunk has %d" % (vlabel, un[gi], exp_nulls)}))
             percol.setdefault(name, []).append({"ord": ordsx, "key": key, "ordv": ordv, "raw_min": raw_min, "raw_max": raw_max,
-                                                "ptype": cmd.type, "cls": cls0, "want": want_l,
+                                                "ptype": cmd.type, "cls": cls0, "want": want_l, "exp_nulls": exp_nulls, "raw_nulls": raw_nulls,
                                                 # api.statistics collapses the WHOLE min/max list of such a column to [None] when one row group lacks it
                                                 "collapsing": se.converted_type is not None or se.logicalType is not None or cmd.type == 3})
             # ---------------- ties ----------------
@@ -445,6 +551,42 @@ def examine(case, path, pq=None, ctx=None):
             ctx.count("chunk.ordering", ordsx[0] + (str(ordsx[1]) if len(ordsx) > 1 else ""))
             ctx.count("chunk.pages", min(len(pages), 5))
             ctx.count("chunk.stats", "minmax" if raw_min is not None else "null_count only")
+    # ---------------- statistics through derived handles: entry j must describe the j-th SELECTED row group ----------------
+    fails.extend(derived)
+    for vlabel, dst, sel in dviews:
+        for name, lst in percol.items():
+            clsd = {**lst[0]["cls"], "component": "statistics"}
+            for what in ("min", "max"):
+                ul = dst[what].get(name)
+                if ul is None or (len(ul) == 1 and ul[0] is None and len(sel) != 1):
+                    continue
+                if len(ul) != len(sel):
+                    fails.append(({**clsd, "what": "user-shape"},
+                                  {"col": name, "rg": None, "detail": "%s: %s[%r] has %d entries for a handle of %d row group(s) %s" % (vlabel, what, name, len(ul), len(sel), sel)}))
+                    continue
+                for j, i in enumerate(sel):
+                    g = lst[i]
+                    u, want = S.user_canon(ul[j]), g["want"][what]
+                    if g["raw_" + what] is not None and want is not None and not S.same_logical(u, want):
+                        fails.append(({**clsd, "what": "user-" + what},
+                                      {"col": name, "rg": i, "detail": "%s: %s[%d] = %r, the handle's row group %d is row group %d of the file whose stored chunk has %s %r"
+                                                                       % (vlabel, what, j, ul[j], j, i, what, want)}))
+                        break
+                    if g["raw_" + what] is None and u is not None:
+                        fails.append(({**clsd, "what": "user-" + what + "-invented"},
+                                      {"col": name, "rg": i, "detail": "%s: %s[%d] = %r but that chunk carries none" % (vlabel, what, j, ul[j])}))
+                        break
+            un = dst["null_count"].get(name)
+            if un is not None and not (len(un) == 1 and un[0] is None and len(sel) != 1):
+                if len(un) != len(sel):
+                    fails.append(({**clsd, "what": "user-shape"},
+                                  {"col": name, "rg": None, "detail": "%s: null_count[%r] has %d entries for a handle of %d row group(s)" % (vlabel, name, len(un), len(sel))}))
+                else:
+                    for j, i in enumerate(sel):
+                        if lst[i]["raw_nulls"] is not None and un[j] != lst[i]["exp_nulls"]:
+                            fails.append(({**clsd, "what": "user-null_count"},
+                                          {"col": name, "rg": i, "detail": "%s: null_count[%d] = %r, the stored chunk of row group %d has %d" % (vlabel, j, un[j], i, lst[i]["exp_nulls"])}))
+                            break
     # ---------------- sorted_partitioned_columns: every call of the sequence ----------------
     for v in sorted_views:
         sub = list(range(nrg)) if v["idx"] is None else list(v["idx"])
@@ -481,8 +623,9 @@ def examine(case, path, pq=None, ctx=None):
             if pq is not None:
                 tname = S.PTYPE_NAME[lst[0]["ptype"]]
                 mins, maxs, okdec = [], [], True
-                collapsed = {"min": lst[0]["collapsing"] and any(g["raw_min"] is None for g in lst),
-                             "max": lst[0]["collapsing"] and any(g["raw_max"] is None for g in lst)}
+                seen_by_statistics = [lst[i] for i in sub] if v.get("derived") else lst      # a derived handle knows only its own row groups
+                collapsed = {"min": lst[0]["collapsing"] and any(g["raw_min"] is None for g in seen_by_statistics),
+                             "max": lst[0]["collapsing"] and any(g["raw_max"] is None for g in seen_by_statistics)}
                 for i in sub:
                     g = lst[i]
                     for raw, acc, w in ((g["raw_min"], mins, "min"), (g["raw_max"], maxs, "max")):
